@@ -1176,6 +1176,21 @@ func (env *Environment) setState(state string) {
 	env.Sm.SetState(state)
 }
 
+// ForceState writes the environment state outside of a transition (e.g. when GO_ERROR itself
+// failed). It waits for a transition or teardown in progress, so that the write cannot land in the
+// middle of it, and it never resurrects an environment which is already DONE.
+func (env *Environment) ForceState(state string) {
+	if env == nil {
+		return
+	}
+	env.transitionMutex.Lock()
+	defer env.transitionMutex.Unlock()
+	if env.Sm.Current() == "DONE" {
+		return
+	}
+	env.setState(state)
+}
+
 func (env *Environment) subscribeToWfState(taskman *task.Manager) {
 	go func() {
 		wf := env.Workflow()
@@ -1213,7 +1228,7 @@ func (env *Environment) subscribeToWfState(taskman *task.Manager) {
 											WithError(err).
 											WithField("level", infologger.IL_Devel).
 											Warn("could not transition gently to ERROR, forcing it")
-										env.setState(wfState.String())
+										env.ForceState(wfState.String())
 									}
 								}
 								toStop := env.Workflow().GetTasks().Filtered(func(t *task.Task) bool {
@@ -1456,7 +1471,7 @@ func (env *Environment) scheduleAutoStopTransition() (scheduled bool, expected t
 							log.WithField("partition", env.id).
 								WithField("run", env.currentRunNumber).
 								Errorf("Forced transition to ERROR failed: %s", err.Error())
-							env.setState("ERROR")
+							env.ForceState("ERROR")
 						}
 						return
 					}
